@@ -63,6 +63,9 @@ def known_signatures(prop: str) -> dict[str, str]:
     }
 
 
+LAST_CASE = {}
+
+
 class CaseTimeout(BaseException):
     pass
 
@@ -147,6 +150,8 @@ def run_subcheck(sub, ctx, known, tier, checkpoint=None):
         return rec, failures
 
     strategy = sub.strategy() if callable(sub.strategy) else sub.strategy
+    LAST_CASE["sub"] = sub.name
+    LAST_CASE["state"] = state
     remaining = share
     for rnd in range(MAX_ROUNDS):
         if remaining <= 0:
@@ -288,6 +293,13 @@ def main(argv=None):
         result["error"] = f"{type(exc).__name__}: {exc}\n{traceback.format_exc()}"
     finally:
         ctx.close()
+    if result["error"] is not None and LAST_CASE.get("state", {}).get("last") is not None:
+        # keep the case for triage (never reported as a violation)
+        try:
+            result["error_case"] = {"subcheck": LAST_CASE["sub"],
+                                    "case": to_jsonable(LAST_CASE["state"]["last"])}
+        except Exception:  # noqa: BLE001
+            pass
     result["wall_s"] = time.time() - t0
     with open(args.out, "w") as fh:
         json.dump(result, fh)
